@@ -1010,6 +1010,48 @@ def run_models(ctx, rep, n_models):
     return scripts
 
 
+def oracle_snapshot(m, df, rep, case, where):
+    """The exported table HOLDS the series' values: it is a snapshot, not a window onto the model.  An export taken now
+    must read the same after the model moves on (solve, in-place writes), and editing the table must not write into the
+    model — otherwise export -> (model changes) -> from_dataframe does not reproduce the exported values.  Judged on the
+    storage arrays (`vars(m)['_' + name]`): no column may share memory with its series, and an in-place change of the
+    series must not show in the table already returned."""
+    for nm in list(vars(m)['names']):
+        a = vars(m).get('_' + nm)
+        if not isinstance(a, np.ndarray) or a.ndim != 1 or a.size == 0 or a.dtype.kind not in 'fiub':
+            continue
+        try:
+            col = df[nm]
+        except Exception:  # noqa: BLE001
+            continue
+        if not isinstance(col, pd.Series):
+            continue
+        try:
+            shared = bool(np.shares_memory(col.to_numpy(copy=False), a))
+        except Exception:  # noqa: BLE001
+            shared = False
+        before = col.to_numpy(copy=True)
+        old = a.copy()
+        try:
+            with np.errstate(all='ignore'):
+                a[...] = (~a) if a.dtype.kind == 'b' else (a + 1)
+            after = df[nm].to_numpy(copy=True)
+        finally:
+            a[...] = old
+        moved = not (before.shape == after.shape and all(same_cell(x, y) for x, y in zip(before.tolist(), after.tolist())))
+        rep.dist['snapshot-probed'] += 1
+        if shared or moved:
+            violate(rep, 'export-shares-model-storage',
+                    f'{where}: column {nm!r} of the returned table ' +
+                    ('changed when the model series was written in place afterwards' if moved else 'shares memory with the model series') +
+                    ' (the export is a view of the model, not its values)', case)
+            return
+
+
+def same_cell(x, y):
+    return (x != x and y != y) or x == y
+
+
 def safe(fn, rep, key, where, case):
     """Run an export / import of the code under test; an exception is a violation `key`, never a harness error."""
     try:
@@ -1096,6 +1138,7 @@ def one_model(ctx, rep, rec, M, m, items, ft_items, rng, flags_list=FLAGS, entri
                     violate(rep, 'df-not-a-dataframe', f'{where} returned {type(df).__name__}', case)
                 else:
                     oracle_table(m, df, flags, rep, case, where)
+                    oracle_snapshot(m, df, rep, case, where)
                     items.append(('model_to_dataframe', store, flags, canon_or_none(df), case))
             rep.case(json.dumps(case, sort_keys=True), nontrivial=nontrivial,
                      sample={'script': rec.get('script', rec.get('class_names')), 'span': rec['span'], 'flags': list(flags),
